@@ -17,9 +17,13 @@ def fsStr (s : Sexp) (k : String) : String := match s.field? k with
   | some (.list [_, .atom v]) => v
   | _ => ""
 
+/-- `(f name (line "…"))`: the first line as the harness read it; `(f name (content "…"))`: the whole content - the MODEL takes
+    the first line (`FileInfo.ofContent`) -/
 def parseFileInfo : Sexp → Option FileInfo
   | s@(.list (.atom "f" :: .atom name :: _)) =>
-    some { name := name, firstLine := fsStr s "line" }
+    match s.field? "content" with
+    | some (.list [_, .atom c]) => some (FileInfo.ofContent name c)
+    | _ => some { name := name, firstLine := fsStr s "line" }
   | _ => none
 
 def parseOut (j : Nat) : Sexp → Option (String × List Bytes × String)
@@ -121,6 +125,39 @@ def clean17Case (id : String) (payload : List Sexp) : List String :=
   | some cmd, some listing =>
     both id [("removed", " ".intercalate (cleanLoop cmd (fsStr p "genfile") listing))] [] "WF"
   | _, _ => err id "bad-clean17-case"
+
+/-- `(case <id> glob17 (cmd new) (pkg "w?/mod/p/") (genfile "a.shootnew.go") (outs (o "a.shootnew.go" "1")) (listing …) (flags …) (aiofile "a.go")
+     (dirpat wild self (other "w1/mod/p/" (f …) …) …) | (dirpat bad) | (dirpat literal))`: Clean with a `[dir]` that holds glob metacharacters -/
+def glob17Case (id : String) (payload : List Sexp) : List String :=
+  let p := Sexp.list (.atom "p" :: payload)
+  let sub (k : String) : List Sexp := match p.field? k with
+    | some (.list (_ :: xs)) => xs
+    | _ => []
+  let parseOther : Sexp → Option (String × List FileInfo)
+    | .list (.atom "other" :: .atom pre :: fs) => (fs.mapM parseFileInfo).map (fun l => (pre, l))
+    | _ => none
+  match parseCmd (fsStr p "cmd"), mapIdx parseOut (sub "outs"), (sub "listing").mapM parseFileInfo with
+  | some cmd, some outs, some listing =>
+    let fl : ShootVerif.Cli.Flags := match p.field? "flags" with
+      | some f => parseFlags f
+      | none => {}
+    let c : Config := { cmd := cmd, pkgPrefix := fsStr p "pkg", outs := outs,
+                        cleanActive := ShootVerif.Cli.cleanActiveWith fl (fsStr p "aiofile"), genfile := fsStr p "genfile", listing := listing }
+    let dp : Option DirPat := match sub "dirpat" with
+      | .atom "literal" :: _ => some .literal
+      | .atom "bad" :: _ => some .bad
+      | .atom "wild" :: rest =>
+        let self := rest.any (fun x => x == .atom "self")
+        ((rest.filter (fun x => x != .atom "self")).mapM parseOther).map (fun o => DirPat.wild self o)
+      | _ => none
+    match dp with
+    | none => err id "bad-dirpat"
+    | some dp =>
+      let model : List (String × String) := match c.cleanGlob dp with
+        | some rms => [("exit", "0"), ("removed", dash (sortStrs rms)), ("removed-outside", fsyn (!removedInside c rms))]
+        | none => [("exit", "1"), ("removed", "-"), ("removed-outside", "no")]
+      both id model [("exit", "0"), ("removed-outside", "no")] (regionGlob c dp).str
+  | _, _, _ => err id "bad-glob17-case"
 
 /-- `(case <id> dirline (cmdline "shoot new -type=*") (line "//go:generate go tool shoot new -type=*"))`: findCmdLine -/
 def dirlineCase (id : String) (payload : List Sexp) : List String :=
